@@ -49,7 +49,8 @@ STEPS = ["sizematcher", "resizer", "pad", "crop", "affine", "intensity"]
 def gen_plan(rng, index, tier):
     mode = "dataset" if (index % 3 == 2) else "chain"
     scene = dw.gen_scene(rng, single=False, max_frames=3 if mode == "dataset" else 2, max_animals=2, allow_empty_inst=False, allow_pred=False,
-                         min_hw=40, max_hw=140, two_videos_p=0.3 if mode == "dataset" else 0.0, nan_p=0.2, empty_frames=(mode == "dataset"))
+                         min_hw=40, max_hw=140, two_videos_p=0.3 if mode == "dataset" else 0.0, nan_p=0.2, empty_frames=(mode == "dataset"),
+                         wide_p=0.0)
     plan = {"mode": mode, "scene": scene}
     if mode == "chain":
         steps = []
@@ -298,12 +299,15 @@ def _execute_inner(plan, choices=None):
                     if tuple(img.shape[-2:]) != (mh, mw):
                         V("wrong_size", "sizematcher", f"apply_sizematcher({h0}x{w0} -> max {s['mh']}x{s['mw']}) returned {tuple(img.shape[-2:])}, expected {(mh, mw)}")
                         break
-                    th, tw = int(round(h0 * eff)), int(round(w0 * eff))
-                    r = max(abs(h0 * eff - th), abs(w0 * eff - tw))
+                    # content rectangle, scale and size rounding from first principles (never from the value the code returned:
+                    # the keypoints above are moved by the returned scale, exactly as every caller does)
+                    eff0 = min(mh / h0, mw / w0) if (h0, w0) != (mh, mw) else 1.0
+                    th, tw = int(round(h0 * eff0)), int(round(w0 * eff0))
+                    r = max(abs(h0 * eff0 - th), abs(w0 * eff0 - tw))
                     if r > 1e-6:
                         probes["size_rounding_nonzero"] += 1
-                    rho = rho * eff + r
-                    sigma *= eff
+                    rho = rho * eff0 + r
+                    sigma *= eff0
                     # padding only bottom/right
                     cm = content_mask(img[0], level)
                     probes["padding_checked"] += 1
